@@ -111,6 +111,46 @@ def run(ctx):
                 ctx.ok("C10-R2", "mul_add_assign: %s <- %s + weight*rhs.%s" % (comp, comp, comp), cm.loc_of(st["span"]))
             else:
                 ctx.fail("C10-R2", ab.path, "store " + tshow[-50:], "store %s = %s is not `x += weight * (same component of rhs)`" % (tshow[-80:], show(val)[:160]), cm.loc_of(st["span"]))
+        # closure form: self.parameters.iter_mut().zip(&rhs.parameters).for_each(|(acc, term)| { acc.k += weight * term.k })
+        from ..expr import resolve_upvars
+        for fbb, ft in ab.calls():
+            fc = ft["callee"]
+            if fc["k"] != "fndef" or not cm.callee_name(fc).endswith("Iterator::for_each") or len(ft["args"]) != 2:
+                continue
+            recv = eb.at(fbb).op(ft["args"][0])
+            clo = eb.op(ft["args"][1])
+            rs = show(recv).replace("std::iter::Iterator::", "")
+            if not (recv[0] == "call" and recv[1].endswith("Iterator::zip") and "self.parameters" in show(recv[2][0]) and "rhs.parameters" in show(recv[2][1]) and clo[0] == "agg" and clo[1].startswith("closure:")):
+                continue
+            if any(k in rs for k in ("skip(", "take(", "filter(", "step_by(", "rev(")):
+                continue
+            cb = p.bodies.get(clo[1][len("closure:"):])
+            if cb is None or paths.guards(ab, fbb, eb):
+                continue
+            ceb = ExprBuilder(cb)
+            for bb, i, st, tgt, root, chain, val in stores(cb, ceb):
+                if not (root[0] == "arg" and root[1] == 2 and len(chain) >= 2 and chain[0] == "0" and chain[-1] in ("0", "1")) or paths.guards(cb, bb, ceb):
+                    continue
+                v2 = resolve_upvars(p, cb, val)
+
+                def atomize2(e, tgt=tgt):
+                    if canon(e) == canon(tgt):
+                        return ("OLD",)
+                    if e[0] == "arg" and e[2] == "weight":
+                        return w
+                    return None
+                delta = to_poly(v2, atomize2) - Poly.atom(("OLD",))
+                if len(delta.t) == 1:
+                    (mono, c), = delta.t.items()
+                    d = dict(mono)
+                    others = [a for a in d if a != w]
+                    if c == 1 and d.get(w) == 1 and len(others) == 1 and d[others[0]] == 1:
+                        y = others[0]
+                        # the same component of the paired element: arg2.1.<k>
+                        if y[0] == "field" and y[2] == chain[-1] and y[1][0] == "field" and y[1][2] == "1" and y[1][1][0] == "arg":
+                            comp = "mean" if chain[-1] == "0" else "variance"
+                            seen.add(comp)
+                            ctx.ok("C10-R2", "mul_add_assign: %s <- %s + weight*rhs.%s (for_each over zip(self.parameters, rhs.parameters))" % (comp, comp, comp), cm.loc_of(st["span"]))
         for comp in ("mean", "variance", "msd"):
             if comp not in seen:
                 ctx.fail("C10-R2", ab.path, "component " + comp, "mul_add_assign leaves the %s unweighted / unaccumulated" % comp, ab.loc())
